@@ -173,7 +173,7 @@ pub fn run(ctx: &Ctx) -> (Acc, String, bool) {
     };
     // characters that are neither ASCII white space nor the start or continuation of any token (Unicode spaces,
     // vertical tab, zero-width and control characters), each inside a small alphabet of ordinary characters
-    const ODD: [char; 10] = ['\u{a0}', '\u{b}', '\u{2003}', '\u{3000}', '\u{85}', '\u{200b}', '\u{feff}', '\u{1}', '\u{7f}', '\u{2028}'];
+    const ODD: [char; 11] = ['\u{0}', '\u{a0}', '\u{b}', '\u{2003}', '\u{3000}', '\u{85}', '\u{200b}', '\u{feff}', '\u{1}', '\u{7f}', '\u{2028}'];
     let odd_alphas: Vec<Vec<char>> = ODD.iter().map(|c| vec!['a', '1', ' ', '\n', '"', '.', *c]).collect();
     let mut blocks = blocks;
     for a in &odd_alphas {
